@@ -18,6 +18,8 @@ CONSTANT Env     \* type environment: name -> raw type (named and recursive Go t
 RECURSIVE Bake(_, _)
 Bake(T, opt) ==
   CASE T.k = "int"    -> [k |-> "int", w |-> T.w, flat |-> (opt = "flat")]
+    [] T.k = "marked" -> [k |-> "marked", mk |-> (opt = "mk")]
+    [] T.k = "time"   -> IF opt = "flattime" THEN [k |-> "bqtime"] ELSE T      \* the BigQuery timestamp codec, registered under the tag flattime     \* a named int32 for which instances may register a marker codec (C17)
     [] T.k = "ptr"    -> [k |-> "ptr", e |-> Bake(T.e, opt)]
     [] T.k = "slice"  -> [k |-> "slice", e |-> Bake(T.e, ""), proto |-> (opt = "proto")]
     [] T.k = "map"    -> [k |-> "map", key |-> Bake(T.key, ""), val |-> Bake(T.val, ""), proto |-> (opt = "proto")]
@@ -38,12 +40,16 @@ NullBase(of) == CASE of = "int" -> [k |-> "int", w |-> 64, flat |-> FALSE]
                   [] of = "string" -> [k |-> "string"]
                   [] of = "time" -> [k |-> "time"]
 
-Cfg0 == [protoTime |-> FALSE, protoArrays |-> FALSE, nullProto |-> FALSE, flatUnsigned |-> FALSE, timeAsZigZag |-> FALSE]
+Cfg0 == [protoTime |-> FALSE, protoArrays |-> FALSE, nullProto |-> FALSE, flatUnsigned |-> FALSE, timeAsZigZag |-> FALSE, marker |-> "none"]
 
+\* C17: does the instance's registration for the marked type apply at this (type, option) position?
+\* cfg.marker: "none" | "plain" (registered for the type) | "tagged" (registered under the tag mk) | "both"
+Marker(cfg, T) == IF T.mk THEN cfg.marker \in {"tagged", "both"} ELSE cfg.marker \in {"plain", "both"}
 \* wire type of a baked type
 RECURSIVE WT(_, _)
 WT(cfg, T0) == LET T == Resolve(T0) IN
   CASE T.k \in {"bool", "int", "uint", "bqtime"} -> WTVarInt
+    [] T.k = "marked" -> IF Marker(cfg, T) THEN WT32 ELSE WTVarInt
     [] T.k = "f64" -> WT64
     [] T.k = "f32" -> WT32
     [] T.k \in {"string", "bytes", "time", "struct"} -> WTLength
@@ -64,7 +70,7 @@ ZeroInt == [neg |-> FALSE, mag |-> <<>>]
 RECURSIVE Zero(_)
 Zero(T0) == LET T == Resolve(T0) IN
   CASE T.k = "bool" -> FALSE
-    [] T.k \in {"int", "uint"} -> ZeroInt
+    [] T.k \in {"int", "uint", "marked"} -> ZeroInt
     [] T.k = "f32" -> <<0, 0, 0, 0>>
     [] T.k = "f64" -> <<0, 0, 0, 0, 0, 0, 0, 0>>
     [] T.k = "string" -> <<>>
